@@ -849,6 +849,18 @@ func genC05(r *Run) {
 			}
 		}
 	}
+	// domain names at the 253-octet limit, however the name ends: a terminating zero, the end of the value
+	// (RFC 4704 partial form), or a compression pointer that lengthens it; in every name-bearing option
+	for _, nw := range nameBoundaryWires() {
+		r.Add(eLabelFrom, nw)
+		r.Add(eV6Opt, w16(24), nw)
+		r.Add(eV6Opt, w16(39), append([]byte{1}, nw...))
+		r.Add(eV6Opt, w16(56), tlvb(3, nw))
+		add(append([]byte{1, 1, 2, 3}, tlvb(24, nw)...))
+		add(append([]byte{1, 1, 2, 3}, tlvb(39, append([]byte{0}, nw...))...))
+		add(append(append([]byte{1, 1, 2, 3}, tlvb(56, tlvb(3, nw))...), 0, 8, 0, 2, 0, 1))
+		add(append([]byte{1, 1, 2, 3}, tlvb(3, append(make([]byte, 12), tlvb(24, nw)...))...))
+	}
 	// random / mutated messages up to 4096 octets
 	n := r.N(1500, 120000)
 	for i := 0; i < n; i++ {
@@ -888,6 +900,57 @@ func genC05(r *Run) {
 		r.Add(eV6DUID, w[:r.Rng.Intn(len(w)+1)])
 		r.Add(eV6DUID, append(w, r.Bytes(1)...))
 	}
+}
+
+// nameBoundaryWires: wire forms of names whose dotted length is 250..256 and 319 octets, split into labels in
+// several ways, each ended by a zero, by the end of the buffer, by a second name, or lengthened by a pointer.
+func nameBoundaryWires() [][]byte {
+	var out [][]byte
+	labelsFor := func(dotted int, first int) []byte {
+		// labels of at most 63 octets whose dotted form has exactly `dotted` octets; the first label has `first`
+		var b []byte
+		rem := dotted
+		l := first
+		ch := byte('a')
+		for rem > 0 {
+			if l > rem {
+				l = rem
+			}
+			b = append(b, byte(l))
+			for i := 0; i < l; i++ {
+				b = append(b, ch)
+			}
+			ch++
+			rem -= l
+			if rem > 0 {
+				rem-- // the dot
+				if rem == 0 {
+					// a trailing dot cannot be expressed: give the last label one octet more instead
+					b[len(b)-l-1]++
+					b = append(b, ch)
+				}
+			}
+			l = 63
+		}
+		return b
+	}
+	for _, dotted := range []int{250, 251, 252, 253, 254, 255, 256, 319} {
+		for _, first := range []int{63, 1, 30} {
+			w := labelsFor(dotted, first)
+			out = append(out, append(append([]byte{}, w...), 0))                 // terminated
+			out = append(out, append([]byte{}, w...))                            // ends with the buffer
+			out = append(out, append(append(append([]byte{}, w...), 0), 1, 'x', 0)) // followed by another name
+			out = append(out, append(append([]byte{1, 'x', 0}, w...), 0))       // preceded by another name
+			out = append(out, append(append([]byte{1, 'x', 0}, w...)))          // preceded, unterminated
+			// lengthened by a pointer to a label at the front: [2 'y' 'z' 0] w [ptr 0]
+			pw := append(append([]byte{2, 'y', 'z', 0}, w...), 0xc0, 0)
+			out = append(out, pw)
+			// a short name lengthened to the limit by a pointer into the long one
+			pl := append(append(append([]byte{}, w...), 0), 3, 'q', 'q', 'q', 0xc0, 0)
+			out = append(out, pl)
+		}
+	}
+	return out
 }
 
 // ---------------------------------------------------------------------
